@@ -65,8 +65,10 @@ SHAPES = {
 }
 BOOL_OPTS = ["submodules", "try_relative_path", "find_stubs_package", "store_source", "resolve_aliases", "resolve_implicit"]
 EXTERNAL = [None, False, True]
-FAULTS = ["raise Exception('boom')", "import surely_missing_dependency_xyz", "import sys; sys.exit(7)", "raise KeyboardInterrupt()"]
-FAULT_NAMES = ["exception", "missing-dependency", "sys-exit", "keyboard-interrupt"]
+FAULTS = ["raise Exception('boom')", "import surely_missing_dependency_xyz", "import sys; sys.exit(7)", "raise KeyboardInterrupt()",
+          # not failures, but the imported code tampering with the very state that has to be restored (the import goes on)
+          "import sys; sys.path = ['/rebound-by-analysed-code'] + sys.path", "import sys; sys.path.insert(0, '/inserted-by-analysed-code')"]
+FAULT_NAMES = ["exception", "missing-dependency", "sys-exit", "keyboard-interrupt", "rebinds-sys-path", "mutates-sys-path"]
 FPKG = ["fp/__init__.py", "fp/a.py", "fp/sub/__init__.py", "fp/sub/b.py"]
 FMOD = ["fp", "fp.a", "fp.sub", "fp.sub.b"]
 
